@@ -707,6 +707,9 @@ def verify_directory_hash_subcommand(
         for hash_list in existing_history.hash_lists:
             if hash_list.generation_number > generation:
                 # add each hash entry's format to the list of formats
+                # (generations created without directory hashes have no root hash)
+                if hash_list.process_info.root_media_hash is None:
+                    continue
                 if len(hash_list.process_info.root_media_hash.hash_entries) > 0:
                     for entry in hash_list.process_info.root_media_hash.hash_entries:
                         entry_hash_format = entry.hash_format
@@ -780,6 +783,11 @@ def verify_directory_hash_subcommand(
                     content_hash = None
                     structure_hash = None
 
+                    # directory hashes in formats that are not calculated in this run (e.g. only used by a nested
+                    # history) cannot be compared
+                    if directory_hash_entry.hash_format not in hash_format_list:
+                        continue
+
                     if content_hash_lookup:
                         content_hash = content_hash_lookup[directory_hash_entry.hash_format]
                     if structure_hash_lookup:
@@ -849,10 +857,14 @@ def verify_directory_hash_subcommand(
         # compare root hashes, works differently
         if folder_path == root_path:
             for hash_list in existing_history.hash_lists:
+                if hash_list.process_info.root_media_hash is None:
+                    continue
                 root_hash_entries = hash_list.process_info.root_media_hash.hash_entries
                 if len(root_hash_entries) > 0:
                     for root_hash_entry in root_hash_entries:
                         hash_format = root_hash_entry.hash_format
+                        if hash_format not in hash_format_list:
+                            continue
                         found_hash_format = False
                         dir_content_hash = None
                         dir_structure_hash = None
@@ -864,9 +876,13 @@ def verify_directory_hash_subcommand(
 
                         if dir_content_hash:
                             found_hash_format = True
-                            _compare_and_log_directory_hashes(
+                            num_current_successful_verifications = _compare_and_log_directory_hashes(
                                 ".", root_hash_entry, dir_content_hash, dir_structure_hash
                             )
+                            # a mismatch of the root folder is a failed verification like any other folder
+                            if num_current_successful_verifications == 1 and not root_only:
+                                num_failed_verifications += 1
+                                add_detected_failure_for_format(hash_format)
 
                         if not calculate_only:
                             if not found_hash_format:
